@@ -231,6 +231,31 @@ Proof.
     destruct ((length bt =? length m)%nat && _); [apply IH|]. destruct (length m <=? length bt)%nat; [discriminate|apply IH].
 Qed.
 
+(* the pre-pass over leading blank lines pushes unmarked NEWLINE tokens only *)
+Lemma lead_blank_unmarked s : forall line k nsp toks ls,
+  Forall (fun t => tnorm t = None) toks ->
+  Forall (fun t => tnorm t = None) (snd (lead_blank s line k nsp toks ls)).
+Proof.
+  induction s as [|c r IH]; intros line k nsp toks ls H; cbn [lead_blank]; [exact H|].
+  destruct (N.eqb c c_sp); [apply IH; exact H|]. destruct (N.eqb c c_nl); [|exact H].
+  apply IH. constructor; [reflexivity|exact H].
+Qed.
+
+Lemma unmarked_inv toks : Forall (fun t => tnorm t = None) toks -> flat_map rec_of_tok toks = [] /\ Forall plain_kind toks.
+Proof.
+  induction 1 as [|t l Ht _ [IH1 IH2]]; [split; constructor|]. split.
+  - cbn [flat_map]. unfold rec_of_tok at 1. rewrite Ht. exact IH1.
+  - constructor; [intros _; exact Ht|exact IH2].
+Qed.
+
+Lemma init_state_inv content spans : Inv (init_state content spans).
+Proof.
+  unfold init_state. pose proof (lead_blank_unmarked content 1 0 0 [] content (Forall_nil _)) as H.
+  destruct (lead_blank content 1 0 0 [] content) as [[[rest line] k] toks]. cbn [snd] in H.
+  destruct toks as [|t toks]; [split; [reflexivity|constructor]|].
+  destruct (unmarked_inv _ H) as [H1 H2]. split; [cbn [ls_reps ls_toks]; rewrite H1; reflexivity|exact H2].
+Qed.
+
 (* ================================================================================================================= *)
 Theorem lexer_receipts_are_marked_tokens lenient lines toks reps :
   tokenize cls lenient lines = LexOk toks reps -> norm_reps reps = flat_map rec_of_tok toks.
@@ -239,7 +264,7 @@ Proof.
   - (* fence_scan errors are never LexOk *)
     exfalso. exact (fence_scan_err _ _ _ _ _ _ _ _ E).
   - destruct (tab_check (join [c_nl] outs) 0 1 1 spans) as [[l c]|]; [discriminate|].
-    apply run_inv. split; [reflexivity|constructor].
+    apply run_inv. apply init_state_inv.
 Qed.
 
 (* an ASCII alias spelling always yields the Unicode operator as the token value, marked with the spelling *)
